@@ -1929,6 +1929,22 @@ func DriveF(run *common.Run, b FBudget) {
 		if first.Fired == 0 && first.Err != nil {
 			fail("error-without-fault", fmt.Sprintf("no fault fired but the call returned %v: %s", first.Err, desc))
 		}
+		if first.Err != nil && first.Fired > 0 {
+			onlyErr := true
+			for _, fl := range first.FiredL {
+				if strings.HasSuffix(fl, "+cancel") || strings.HasPrefix(fl, "precancel") || strings.HasPrefix(fl, "cancel-at") {
+					onlyErr = false
+				}
+			}
+			if onlyErr {
+				if errors.Is(first.Err, errFault) {
+					run.Count("error-identity: injected error returned")
+				} else {
+					run.Count("error-identity: OTHER error returned although only injected errors fired")
+					run.Sample(map[string]any{"error_identity": fmt.Sprint(first.Err), "fired": first.FiredL, "case": desc})
+				}
+			}
+		}
 		if first.Err == nil {
 			run.Count("first-call=ok")
 		} else if errors.Is(first.Err, errFault) {
